@@ -9,7 +9,7 @@ import re  # For _build_url_with_path_vars
 from typing import TYPE_CHECKING, Any, List
 
 from pyopenapi_gen.core.utils import NameSanitizer
-from pyopenapi_gen.core.writers.code_writer import CodeWriter
+from pyopenapi_gen.core.writers.code_writer import CodeWriter, python_string_literal
 
 if TYPE_CHECKING:
     from pyopenapi_gen import IROperation  # IRParameter might be needed for op.parameters access
@@ -48,17 +48,17 @@ class EndpointUrlArgsGenerator:
 
         for i, p in enumerate(query_params_to_write):
             param_var_name = NameSanitizer.sanitize_method_name(p["name"])  # Ensure name is sanitized
-            original_param_name = p["original_name"]
+            original_param_name = python_string_literal(p["original_name"])  # escaped "..." literal
             line_end = ","  # Always add comma, let formatter handle final one if needed
 
             if p.get("required", False):
                 writer.write_line(
-                    f'    "{original_param_name}": DataclassSerializer.serialize({param_var_name}){line_end}'
+                    f"    {original_param_name}: DataclassSerializer.serialize({param_var_name}){line_end}"
                 )
             else:
                 # Using dict unpacking for conditional parameters
                 writer.write_line(
-                    f'    **({{"{original_param_name}": DataclassSerializer.serialize({param_var_name})}} '
+                    f"    **({{{original_param_name}: DataclassSerializer.serialize({param_var_name})}} "
                     f"if {param_var_name} is not None else {{}}){line_end}"
                 )
 
@@ -84,19 +84,20 @@ class EndpointUrlArgsGenerator:
             param_var_name = NameSanitizer.sanitize_method_name(
                 p_info["name"]
             )  # Sanitized name used in method signature
-            original_header_name = p_info["original_name"]  # Actual header name for the request
+            # Actual header name for the request, as an escaped "..." literal
+            original_header_name = python_string_literal(p_info["original_name"])
             line_end = ","
 
             if p_info.get("required", False):
                 writer.write_line(
-                    f'    "{original_header_name}": DataclassSerializer.serialize({param_var_name}){line_end}'
+                    f"    {original_header_name}: DataclassSerializer.serialize({param_var_name}){line_end}"
                 )
             else:
                 # Conditional inclusion for optional headers
                 # This assumes that if an optional header parameter is None, it should not be sent.
                 # If specific behavior (e.g. empty string) is needed for None, logic would adjust.
                 writer.write_line(
-                    f'    **({{"{original_header_name}": DataclassSerializer.serialize({param_var_name})}} '
+                    f"    **({{{original_header_name}: DataclassSerializer.serialize({param_var_name})}} "
                     f"if {param_var_name} is not None else {{}}){line_end}"
                 )
 
